@@ -113,12 +113,12 @@ Section ormap_laws.
     pose proof (okO_lookup a k Ha) as Oa. pose proof (okO_lookup b k Hb) as Ob. pose proof (okO_lookup c k Hc) as Oc.
     assert (k ∉ s_elements (s_merge (m_keys a) (m_keys b)) → m_vals a !! k = None ∧ m_vals b !! k = None) as NA.
     { intros N1. split.
-      - destruct (m_vals a !! k) eqn:E; [exfalso; apply N1, G1; left; rewrite E; eauto|reflexivity].
-      - destruct (m_vals b !! k) eqn:E; [exfalso; apply N1, G1; right; rewrite E; eauto|reflexivity]. }
+      - destruct (m_vals a !! k) eqn:E; [exfalso; apply N1, G1; left; try rewrite E; eauto|reflexivity].
+      - destruct (m_vals b !! k) eqn:E; [exfalso; apply N1, G1; right; try rewrite E; eauto|reflexivity]. }
     assert (k ∉ s_elements (s_merge (m_keys b) (m_keys c)) → m_vals b !! k = None ∧ m_vals c !! k = None) as NB.
     { intros N2. split.
-      - destruct (m_vals b !! k) eqn:E; [exfalso; apply N2, G2; left; rewrite E; eauto|reflexivity].
-      - destruct (m_vals c !! k) eqn:E; [exfalso; apply N2, G2; right; rewrite E; eauto|reflexivity]. }
+      - destruct (m_vals b !! k) eqn:E; [exfalso; apply N2, G2; left; try rewrite E; eauto|reflexivity].
+      - destruct (m_vals c !! k) eqn:E; [exfalso; apply N2, G2; right; try rewrite E; eauto|reflexivity]. }
     destruct (decide (k ∈ s_elements (s_merge (m_keys a) (m_keys b)))) as [|N1];
     destruct (decide (k ∈ s_elements (s_merge (m_keys b) (m_keys c)))) as [|N2].
     - apply U_assoc; assumption.
